@@ -263,6 +263,25 @@ class CacheUnboundedStrong(object):
             # is more ideal than raising a fatal exception.
             return value_factory(arg)
 
+    # ..................{ SETTERS                            }..................
+    def cache_value(self, key: Hashable, value: object) -> None:
+        '''
+        Unconditionally cache the passed key-value pair, silently replacing the
+        value previously cached under this key if any.
+
+        Parameters
+        ----------
+        key : Hashable
+            **Key** (i.e., arbitrary hashable object) to map this value to.
+        value : object
+            **Value** (i.e., arbitrary object) to be mapped to.
+        '''
+        assert isinstance(key, Hashable), f'{repr(key)} unhashable.'
+
+        # Thread-safely...
+        with self._lock:
+            self._key_to_value_set(key, value)
+
     # ..................{ CLEARERS                           }..................
     #FIXME: Unit test us up, please.
     def clear(self) -> None:
